@@ -373,9 +373,17 @@ def correspondence(ctx, cases):
 
 def replay(ctx, binp):
     """./check C03 --replay <file>: run the implementation again on exactly the recorded input and re-evaluate the property on it"""
-    rec = json.load(open(ctx.replay))
+    path = ctx.replay if os.path.isabs(ctx.replay) or os.path.exists(ctx.replay) else os.path.join(VERIF, ctx.replay)
+    if not os.path.exists(path):
+        path = os.path.join(VERIF, ctx.replay)
+    rec = json.load(open(path))
     ro = rec.get("detail", {}).get("replay_obs")
     if not ro:
+        # a broken proof obligation / model mismatch without a failing input: replaying it means re-running translator, proofs and
+        # correspondence (the full pipeline below); it stays red while the obligation is still broken
+        ctx.log("replay: the record carries no input; re-running translator, proofs and correspondence")
+        return None
+    if False:
         ctx.note("replay file carries no input (the violation was a broken proof obligation without a failing input)")
         return finish(ctx)
     tmp = os.path.join(VERIF, "evidence", "replays", ".replay-input.json")
